@@ -511,6 +511,10 @@ def c01(tier, seed):
     for i, s in enumerate(seeds(seed, 2 if q else 10, salt=4)):
         c.add(Run("h_units", "mon", ["--seed", s, "--mode", "joinmix", "--scenarios", 60 if q else 300, "--delay",
                                      profiles[i % 4], "--watchdog", 90], weight=4, tag="joinmix%d" % i))
+    # units that are blocked when their stream is joined complete before the join returns (block scenarios of C06)
+    for i, s in enumerate(seeds(seed, 1 if q else 6, salt=6)):
+        c.add(Run("h_units", "mon", ["--seed", s, "--mode", "block", "--scenarios", 40 if q else 300, "--delay",
+                                     profiles[i % 4], "--watchdog", 90 if q else 600], weight=4, tag="block%d" % i))
     # revived units run exactly once more, also after an earlier cancellation request (lifecycle epochs of C12)
     for i, s in enumerate(seeds(seed, 1 if q else 6, salt=5)):
         c.add(Run("h_units", "mon", ["--seed", s, "--mode", "life", "--scenarios", 6 if q else 40, "--max-cycles",
@@ -518,6 +522,7 @@ def c01(tier, seed):
                   tag="life%d" % i))
     c.nontrivial = lambda r: ((r.result or {}).get("counters", {}).get("units", 0) >= 50 or
                               (r.result or {}).get("counters", {}).get("epochs", 0) >= 50 or
+                              (r.result or {}).get("counters", {}).get("block_scenarios", 0) >= 10 or
                               (r.result or {}).get("counters", {}).get("joinmix_units", 0) >= 50 or
                               (r.result or {}).get("counters", {}).get("stacked_schedulers_added", 0) >= 20)
     c.required_points = ["CREATE_AFTER_PUSH", "POP_BECAME_EMPTY", "POP_LOCK_CONTENDED", "EXIT_JUMP_TO_JOINER", "EXIT_PUSH_JOINER",
@@ -614,6 +619,11 @@ def c06(tier, seed):
         c.add(Run("h_units", "mon", ["--seed", s, "--mode", "forest", "--programs", 12 if q else 40, "--max-units", 500,
                                      "--delay", profiles[i % 4], "--watchdog", 60 if q else 400], weight=6,
                   tag="forest%d" % i))
+    # chains of directed switches incl. hand-overs by a cancelled caller: pool totals are 0 at quiescence
+    for i, s in enumerate(seeds(seed, 2 if q else 10, salt=6)):
+        c.add(Run("h_units", "mon", ["--seed", s, "--mode", "direct", "--scenarios", 20 if q else 150, "--ops", 600,
+                                     "--delay", profiles[i % 4], "--watchdog", 90 if q else 600], weight=4,
+                  tag="direct%d" % i))
     # joins with multi-pool schedulers, joins overlapping a scheduler replacement, join-revive-idle-work-join
     for i, s in enumerate(seeds(seed, 3 if q else 20, salt=5)):
         c.add(Run("h_units", ("mon", "mon", "asan")[i % 3] if q else ("mon", "mon", "mon", "asan", "tsan")[i % 5],
